@@ -594,6 +594,9 @@ func (f *Frame) execBlock(b *ssa.BasicBlock, st *State) {
 			}
 			rs := st.clone()
 			f.returns = append(f.returns, retInfo{st: rs, vals: vals})
+			if f.parent == nil {
+				e.siteReturn(f, rs, in, vals)
+			}
 		case *ssa.Panic:
 			f.execPanic(in, st)
 			st.dead = true
